@@ -51,7 +51,7 @@ Proof.
   apply andb_true_iff in Hc. destruct Hc as [_ Hc].
   cbn [flat_map]. rewrite (IH H). f_equal.
   apply map_ext_in. intros p Hp. apply round_pt_exact.
-  apply emit_order_in in Hp. rewrite forallb_forall in Hc. now apply Hc.
+  apply (proj1 (emit_order_in _ _)) in Hp. rewrite forallb_forall in Hc. now apply Hc.
 Qed.
 
 Lemma outline_ok_lens : forall cs, outline_okb cs = true ->
@@ -64,6 +64,23 @@ Proof.
 Qed.
 
 (* ---- the glyf entry of an outline ----------------------------------------------------- *)
+Lemma simple_glyph_cons : forall p c cs,
+  simple_glyph p (c :: cs) =
+  (if 32767 <=? zlen (c :: cs) then Panic else
+   ends <- end_pts p 0 (map (fun c => zlen c) (c :: cs)) ;;
+   dx <- deltas p 0 (map fst (glyf_points (c :: cs))) ;;
+   dy <- deltas p 0 (map snd (glyf_points (c :: cs))) ;;
+   Emit (GSimple {| so_ends := ends; so_dx := dx; so_dy := dy; so_bbox := bbox_of (glyf_points (c :: cs)) |})).
+Proof. reflexivity. Qed.
+
+Lemma end_pts_debug_fit : forall lens cur e, end_pts Debug cur lens = Emit e -> ends_fitb cur lens = true.
+Proof.
+  induction lens as [|n t IH]; intros cur e He; cbn in *; [reflexivity|].
+  apply bind_emit in He. destruct He as [e1 [E1 He]].
+  apply bind_emit in He. destruct He as [r [E2 He]].
+  apply arith_debug_emit in E1. destruct E1 as [_ E1]. rewrite E1. cbn. eapply IH; eauto.
+Qed.
+
 (* what a debug build writes, when it writes anything *)
 Lemma simple_glyph_debug : forall cs o, simple_glyph Debug cs = Emit o ->
   match cs with
@@ -74,22 +91,26 @@ Lemma simple_glyph_debug : forall cs o, simple_glyph Debug cs = Emit o ->
                     outline_arithb cs = true
   end.
 Proof.
-  intros cs o H. destruct cs as [|c cs]; cbn in H; [now inversion H|].
+  intros cs o H. destruct cs as [|c cs].
+  { cbn in H. inversion H. reflexivity. }
   set (l := c :: cs) in *.
+  assert (simple_glyph Debug l =
+       (if 32767 <=? zlen l then Panic else
+        ends <- end_pts Debug 0 (map (fun c => zlen c) l) ;;
+        dx <- deltas Debug 0 (map fst (glyf_points l)) ;;
+        dy <- deltas Debug 0 (map snd (glyf_points l)) ;;
+        Emit (GSimple {| so_ends := ends; so_dx := dx; so_dy := dy; so_bbox := bbox_of (glyf_points l) |}))) as U
+      by reflexivity.
+  rewrite U in H. clear U.
   destruct (32767 <=? zlen l); [discriminate|].
   apply bind_emit in H. destruct H as [ends [He H]].
   apply bind_emit in H. destruct H as [dx [Hx H]].
   apply bind_emit in H. destruct H as [dy [Hy H]]. inversion H; subst o.
   destruct (deltas_debug_exact _ _ _ Hx) as [Ux [Fx _]].
   destruct (deltas_debug_exact _ _ _ Hy) as [Uy [Fy _]].
-  eexists. split; [reflexivity|]. cbn [so_ends so_dx so_dy so_bbox decode_simple].
+  eexists. split; [reflexivity|]. unfold decode_simple. cbn [so_ends so_dx so_dy so_bbox].
   rewrite Ux, Uy, combine_fst_snd. repeat split; try assumption.
-  unfold outline_arithb. rewrite Fx, Fy, !andb_true_r.
-  clear -He. revert He. generalize 0 at 1 3. generalize (map (fun c0 : contour => zlen c0) l). clear.
-  intros lens. revert ends. induction lens as [|n t IH]; intros ends cur He; cbn in *; [reflexivity|].
-  apply bind_emit in He. destruct He as [e [E1 He]].
-  apply bind_emit in He. destruct He as [r [E2 He]].
-  apply arith_debug_emit in E1. destruct E1 as [_ E1]. rewrite E1. cbn. eapply IH; eauto.
+  unfold outline_arithb. rewrite Fx, Fy, !andb_true_r. eapply end_pts_debug_fit; eauto.
 Qed.
 
 Lemma end_pts_fit : forall p lens cur, ends_fitb cur lens = true ->
@@ -160,7 +181,8 @@ Qed.
 
 Lemma refines_simple_glyph : forall cs, refines (simple_glyph Debug cs) (simple_glyph Release cs).
 Proof.
-  intros [|c cs]; [apply refines_refl|]. cbn. destruct (32767 <=? zlen (c :: cs)); [apply refines_refl|].
+  intros [|c cs]; [apply refines_refl|]. rewrite !simple_glyph_cons.
+  destruct (32767 <=? zlen (c :: cs)); [apply refines_refl|].
   apply refines_bind; [apply refines_end_pts|]. intro.
   apply refines_bind; [apply refines_deltas|]. intro.
   apply refines_bind; [apply refines_deltas|]. intro. apply refines_refl.
@@ -173,17 +195,17 @@ Proof.
   intros cs Hne Hn. split.
   - intro E.
     assert (exists o, simple_glyph Release cs = Emit o) as [o R].
-    { destruct cs as [|c cs]; [congruence|]. cbn.
+    { destruct cs as [|c cs]; [congruence|]. rewrite simple_glyph_cons.
       assert ((32767 <=? zlen (c :: cs)) = false) as Hn' by lia. rewrite Hn'.
-      destruct (end_pts_release_total (map (fun c0 => zlen c0) (c :: cs)) 0) as [e He]. rewrite He. cbn.
-      destruct (deltas_release_total (map fst (glyf_points (c :: cs))) 0) as [dx [Hx _]]. rewrite Hx. cbn.
-      destruct (deltas_release_total (map snd (glyf_points (c :: cs))) 0) as [dy [Hy _]]. rewrite Hy. cbn.
+      destruct (end_pts_release_total (map (fun c0 => zlen c0) (c :: cs)) 0) as [e He]. rewrite He. cbn [bind].
+      destruct (deltas_release_total (map fst (glyf_points (c :: cs))) 0) as [dx [Hx _]]. rewrite Hx. cbn [bind].
+      destruct (deltas_release_total (map snd (glyf_points (c :: cs))) 0) as [dy [Hy _]]. rewrite Hy. cbn [bind].
       eauto. }
     rewrite R in E. pose proof (simple_glyph_debug cs o E) as D.
     destruct cs as [|c cs]; [congruence|]. now destruct D as [so [_ [_ [_ [_ A]]]]].
   - intro A. destruct cs as [|c cs]; [congruence|].
     pose proof A as A'. unfold outline_arithb in A. apply andb_true_iff in A. destruct A as [A Fy].
-    apply andb_true_iff in A. destruct A as [Fe Fx]. cbn.
+    apply andb_true_iff in A. destruct A as [Fe Fx]. rewrite !simple_glyph_cons.
     destruct (32767 <=? zlen (c :: cs)); [reflexivity|].
     destruct (end_pts_fit Release _ _ Fe) as [E1 _]. rewrite E1.
     rewrite <- (proj2 (deltas_agree_iff _ 0) Fx), <- (proj2 (deltas_agree_iff _ 0) Fy). reflexivity.
